@@ -476,7 +476,8 @@ fn iter_target(shape: &Shape) -> Option<IterTarget> {
             types: NarrowingShape::Narrowed(candidates),
             ..
         }) => {
-            if candidates.iter().any(|c| iter_target(c).is_some()) {
+            // No candidates at all means unconstrained.
+            if candidates.is_empty() || candidates.iter().any(|c| iter_target(c).is_some()) {
                 Some(IterTarget::Unknown)
             } else {
                 None
